@@ -338,7 +338,7 @@ def variant_of(hdr, fn, enc):
 USERS = ['admin', 'bob', 'al', 'é', 'None', 'a b']
 ABSENT = ['mallory', 'None', 'root', '', 'Admin']
 PASSWORDS = ['pw', 'None', '', 's3:cr', 'admin', 'é', 'False', '0']
-REALMS = ['R', 'Secure Area', 'r']
+REALMS = ['R', 'Secure Area', 'r', 'Test', '', ' ']      # '' is a legal challenge: Digest realm=""
 METHODS = ['GET', 'POST', 'HEAD']
 SCHEME_B = ['Basic', 'basic', 'BASIC', 'bAsIc']
 SCHEME_D = ['Digest', 'digest', 'DIGEST']
@@ -372,6 +372,8 @@ def gen_auth_case(rng):
     names = rng.sample(USERS, nusers)
     users = [[u, rng.choice(PASSWORDS)] for u in names]
     realm = rng.choice(REALMS)
+    if rng.random() < 0.02:
+        realm = None             # not a str: outside the documented API, judged by the oracle only
     method = rng.choice(METHODS)
     fn = rng.choice(['basic', 'basic', 'digest', 'check'])
     enc = rng.choice([1, 1, 1, 0, 2, 3]) if fn != 'digest' else 0
@@ -449,7 +451,7 @@ def gen_auth_case(rng):
         kw['uri'] = rng.choice(['/', '/a/b?x=1', '/é'])
         kw['nonce'] = rng.choice(['n0', 'abc,def', ''])
         kw['scheme'] = rng.choice(SCHEME_D)
-        crealm = realm if rng.random() < 0.88 else rng.choice(REALMS + ['', realm.upper()])
+        crealm = realm if (realm is not None and rng.random() < 0.85) else rng.choice(REALMS + ['', 'None', (realm or 'x').upper()])
         cmethod = method if rng.random() < 0.9 else rng.choice(METHODS)
         m = rng.random()
         if clean:
@@ -541,6 +543,34 @@ def auth_table():
     return out
 
 
+def realm_table():
+    """configured realm x realm named by the credentials (equal / different / empty / blank / case / missing) for every
+    supported Digest variant and for Basic; the response is always right for the realm the CLIENT names"""
+    out = []
+    users = [['admin', 'pw']]
+    cfgs = ['R', 'Test', '', ' ', 'r', None]
+    variants = [(None, None, 'GET'), (None, 'MD5', 'GET'), ('auth', None, 'GET'), ('auth', None, 'POST'),
+                ('auth', 'MD5-sess', 'GET')]
+    i = 0
+    for cfg in cfgs:
+        for cred in ['R', 'Test', '', ' ', 'r', None]:
+            for qop, alg, method in variants:
+                fn = ['digest', 'basic', 'check'][i % 3]
+                i += 1
+                hdr = digest_header('admin', cred if cred is not None else 'R', 'pw', method, qop=qop, alg=alg,
+                                    drop=('realm',) if cred is None else ())
+                out.append({'k': 'auth', 'fn': fn, 'enc': 0 if fn == 'digest' else 1, 'ukind': 'dict', 'users': users,
+                            'realm': cfg, 'method': method, 'hdr': hdr, 'tag': 'table-realm'})
+        for secret, method in [('pw', 'GET'), ('px', 'POST')]:      # Basic carries no realm
+            out.append({'k': 'auth', 'fn': 'basic', 'enc': 1, 'ukind': 'dict', 'users': users, 'realm': cfg,
+                        'method': method, 'hdr': 'Basic ' + b64s('admin:' + secret), 'tag': 'table-realm'})
+    # two gates with different realms on one request: Digest credentials made for the outer realm only
+    for outer, inner in [('R', ''), ('', 'R'), ('R', None), ('Test', ' ')]:
+        out.append({'k': 'authseq', 'method': 'GET', 'hdr': digest_header('admin', outer, 'pw', 'GET', qop='auth'),
+                    'checks': [_cfg('check', users, realm=outer), _cfg('digest', users, realm=inner)]})
+    return out
+
+
 def auth_table_big():
     """thorough tier: the Digest decision table with qop / algorithm variants and more secrets"""
     out = []
@@ -609,7 +639,7 @@ def gen_authseq_case(rng):
         ch = dict(rng.choice(checks))
         m = rng.random()
         if m < 0.25:
-            ch['realm'] = rng.choice(REALMS + [ch['realm'].upper()])
+            ch['realm'] = rng.choice(REALMS + [(ch['realm'] or 'x').upper()])
         elif m < 0.45:
             ch['users'] = [[u, p] for u, p in ch['users'] if rng.random() < 0.5]
         elif m < 0.65:
@@ -879,7 +909,7 @@ class C20(Prop):
 
     # ---- cases
     def generate(self, rng, n, tier):
-        cases = auth_table() + authseq_table() + e2e_table() + sess_table() + vhost_table() + vhost_peer_table()
+        cases = auth_table() + realm_table() + authseq_table() + e2e_table() + sess_table() + vhost_table() + vhost_peer_table()
         if tier == 'thorough':
             cases += auth_table_big() + sess_table_big()
         for i in range(n):
@@ -1069,8 +1099,10 @@ class C20(Prop):
         k = c['k']
         if k in ('auth', 'e2e') and c['ukind'] in BAD_USERS:
             return None          # configuration error (ValueError), judged by the oracle only
-        if k == 'authseq' and any(ch['ukind'] in BAD_USERS for ch in c['checks']):
+        if k == 'authseq' and any(ch['ukind'] in BAD_USERS or ch['realm'] is None for ch in c['checks']):
             return None
+        if k in ('auth', 'e2e') and c['realm'] is None:
+            return None          # realm must be a str (documented); what the code does with None is judged by the oracle
         if k in ('auth', 'e2e'):
             hdr = c['hdr']
             b64t, utf8t, keqvt = self._header_tables(hdr)
